@@ -384,6 +384,20 @@ def gen_imap(rng, tier):
     return {"n": n, "card": card, "vals": [rs(v) for v in vals], "order": order, "style": style}
 
 
+def imap_as_implemented(drv, p, order):
+    """the recorded finding: for every PROPER subset S of the predecessors U with  v _|_ U - S | S  the loop adds S -> v (the union of
+    all working subsets, instead of one minimal working subset)"""
+    out = set()
+    for k, v in enumerate(order):
+        u = order[:k]
+        for r in range(len(u)):
+            for sub in itertools.combinations(u, r):
+                rest = [w for w in u if w not in sub]
+                if drv.call("ci_holds", p=p, x=[v], y=rest, z=list(sub)):
+                    out |= {(w, v) for w in sub}
+    return out
+
+
 def run_imap(case, drv):
     from pgmpy.factors.discrete import JointProbabilityDistribution as JPD
     n, card = case["n"], case["card"]
@@ -404,9 +418,10 @@ def run_imap(case, drv):
             return fail(f"minimal_imap added an edge into {names[v]} from a later variable", style=case["style"])
         rest = [u for u in pred if u not in pa]
         if rest and not drv.call("ci_holds", p=p, x=[v], y=rest, z=pa):
-            return fail(f"minimal_imap(order={[names[o] for o in order]}) returns parents {[names[u] for u in pa]} for {names[v]}, "
-                        f"but {names[v]} is not independent of {[names[u] for u in rest]} given them (joint style {case['style']}): "
-                        f"the graph encodes an independence that does not hold", style=case["style"])
+            return fail({"msg": f"minimal_imap(order={[names[o] for o in order]}) returns parents {[names[u] for u in pa]} for {names[v]}, "
+                                f"but {names[v]} is not independent of {[names[u] for u in rest]} given them (joint style {case['style']}): "
+                                f"the graph encodes an independence that does not hold",
+                         "equals_union_of_working_subsets": sorted(edges) == sorted(imap_as_implemented(drv, p, order))}, style=case["style"])
     return ok(nontrivial=n > 2, style=case["style"])
 
 
